@@ -27,6 +27,8 @@ def make_fun(d, counter):
             return float(c @ x)
         if kind == "const":
             return 0.0
+        if kind == "floor":      # a quadratic with a flat floor: the value `level` is attained EXACTLY on a whole ball
+            return float(max(np.sum(w * (x - c) ** 2), d["level"]))
         raise ValueError(kind)
 
     def fun(x, *args):
@@ -38,6 +40,10 @@ def make_fun(d, counter):
             if bad["how"] == "at" and k in bad["idx"]:
                 return bad["val"]
             if bad["how"] == "region" and x[0] > bad["t"]:
+                return bad["val"]
+            if bad["how"] == "from" and k >= bad["k"]:
+                return bad["val"]
+            if bad["how"] == "allbut" and k not in bad["idx"]:
                 return bad["val"]
         v = base(x)
         if d.get("ret") == "array":
@@ -79,6 +85,10 @@ def make_con(d, counter):
         if bad and bad["how"] == "at" and counter[0] in bad["idx"]:
             v = v * 0 + bad["val"]
         if bad and bad["how"] == "region" and x[0] > bad["t"]:
+            v = v * 0 + bad["val"]
+        if bad and bad["how"] == "from" and counter[0] >= bad["k"]:
+            v = v * 0 + bad["val"]
+        if bad and bad["how"] == "allbut" and counter[0] not in bad["idx"]:
             v = v * 0 + bad["val"]
         return v
     return con
@@ -212,7 +222,9 @@ def gen(rng, focus="general"):
                 cons.append({"type": "dict", "ctype": "eq" if rng.random() < 0.5 else "ineq", "fun": fd})
             else:
                 p = rng.random()
-                if p < 0.4:
+                if p < 0.07:
+                    lb, ub = ["-inf"] * m, ["inf"] * m      # a constraint function without limits: called, never binding
+                elif p < 0.4:
                     lb, ub = ["-inf"] * m, [0.0] * m
                 elif p < 0.6:
                     lb, ub = [0.0] * m, [0.0] * m
@@ -247,6 +259,10 @@ def gen(rng, focus="general"):
         o["maxiter"] = int(rng.integers(1, 12))
     if rng.random() < (0.5 if focus in ("C09", "C07", "target") else 0.2) and desc["fun"] is not None:
         o["target"] = r(rng.uniform(-1, 8))
+        if rng.random() < 0.25 and "bad" not in desc["fun"]:
+            # a target met with EQUALITY, typically first in the main loop: the objective has a flat floor at the target
+            desc["fun"]["kind"] = "floor"
+            desc["fun"]["level"] = o["target"] = r(rng.uniform(0.05, 2))
     if rng.random() < 0.3:
         o["scale"] = True
     if rng.random() < (0.6 if focus in ("C05", "history") else 0.3):
